@@ -291,7 +291,47 @@ pub fn extra_pool() -> Vec<File> {
             out.push(file1(rule("r0", vec![vec![Clause::Block { some: false, q: vec![Part::This], not_empty: false, lets: lets.clone(), body: vec![vec![leaves[0].clone()], vec![leaves[1].clone()]] }]])));
         }
     }
+    // keys written in another spelling convention than the data (the evaluator falls back on case conversions), on structs
+    // that hold one key in two spellings: the fallback must not depend on what was looked up before
+    let k = |path: &[&str]| -> Query { path.iter().map(|p| key(p)).collect() };
+    let cc = [
+        bin(k(&["Cfg", "bucket_name"]), BinOp::Eq, false, s("camel")),
+        bin(k(&["Other", "some_key"]), BinOp::Eq, false, i(1)),
+        bin(k(&["Cfg", "BucketName"]), BinOp::Eq, false, s("pascal")),
+        un(k(&["cfg", "bucketName"]), UnOp::Exists, false),
+        bin(k(&["Other", "SOME_KEY"]), BinOp::Eq, false, i(1)),
+        bin(k(&["Cfg", "bucket_name"]), BinOp::Eq, false, s("pascal")),
+    ];
+    for a in 0..cc.len() {
+        for b in 0..cc.len() {
+            if a < b {
+                out.push(file1(rule("r0", vec![vec![cc[a].clone()], vec![cc[b].clone()]])));
+                out.push(File { lets: vec![], rules: vec![rule("r0", vec![vec![cc[a].clone()]]), rule("r1", vec![vec![cc[b].clone()]])], default: vec![] });
+                out.push(file1(rule("r0", vec![vec![cc[a].clone(), cc[b].clone()], vec![cc[(a + b) % cc.len()].clone()]])));
+            }
+        }
+    }
+    // rules that refer to each other in a cycle: an evaluation error in every order on the pinned tree (then nothing is
+    // compared); if a tree gives them statuses, those must not depend on the order either
+    for (na, nb) in [(true, true), (false, true), (false, false)] {
+        out.push(File { lets: vec![], rules: vec![rule("ra", vec![vec![named("rb").with_not(na)]]), rule("rb", vec![vec![named("ra").with_not(nb)]]), rule("rc", vec![vec![named("ra")]])], default: vec![] });
+        let mut wa = rule("ra", vec![vec![lp[0].clone()]]);
+        wa.when = Some(vec![vec![named("rb").with_not(na)]]);
+        let mut wb = rule("rb", vec![vec![lp[1].clone()]]);
+        wb.when = Some(vec![vec![named("ra").with_not(nb)]]);
+        out.push(File { lets: vec![], rules: vec![wa, wb, rule("rc", vec![vec![named("ra")], vec![named("rb").with_not(true)]])], default: vec![] });
+        out.push(File { lets: vec![], rules: vec![rule("ra", vec![vec![named("rb").with_not(na)]]), rule("rb", vec![vec![named("rc").with_not(nb)]]), rule("rc", vec![vec![named("ra")]])], default: vec![] });
+    }
     out
+}
+
+/// documents for the spelling-convention programs of the pool
+pub fn case_docs() -> Vec<V> {
+    vec![
+        m(vec![("Cfg", m(vec![("bucketName", s("camel")), ("BucketName", s("pascal"))])), ("Other", m(vec![("SomeKey", i(1))]))]),
+        m(vec![("Cfg", m(vec![("BucketName", s("pascal")), ("bucketName", s("camel"))])), ("Other", m(vec![("someKey", i(1)), ("SomeKey", i(2))]))]),
+        m(vec![("Cfg", m(vec![("bucket_name", s("camel")), ("BucketName", s("pascal"))])), ("Other", m(vec![("some_key", i(1))]))]),
+    ]
 }
 #[allow(non_snake_case)]
 fn Arg_lit_to_v(a: &Arg) -> V {
@@ -319,7 +359,8 @@ pub fn run(tier: &str) -> i32 {
     }
     let small = b.levels[0].len() + b.levels[1].len();
     base.extend(extra_pool());
-    let docs = if thorough { docs_quick() } else { docs_quick().into_iter().step_by(2).collect() };
+    let mut docs: Vec<V> = if thorough { docs_quick() } else { docs_quick().into_iter().step_by(2).collect() };
+    docs.extend(case_docs());
     let djs: Vec<String> = docs.iter().map(|d| d.json()).collect();
     let nbase = base.len();
     let res = crate::par::run(nbase, rep.seed as u64, crate::par::deadline_secs(if thorough { 3000 } else { 45 }), Acc::new, |k, acc| {
